@@ -60,7 +60,8 @@ CLAIMS = {
             "points + use classification of every source-location value inside the closure",
             "in everything reachable from equals, operator==, the hash functors, canonicalisation and compute_diff a "
             "source location is only copied, never compared, branched on, ordered or hashed (one listed kernel-only "
-            "exception): shifting lines or moving a definition between files cannot change equality or the diff",
+            "exception): shifting lines or moving a definition between files cannot change equality or the diff; "
+            "R-LOOPMEMO: nothing computed for one element of a loop is reused for the next through a never-reset flag",
             "other neutral edits (TU layout, declaration order, DIE de-duplication) are runtime",
             "§3 R-NOLOC; §4 C06"),
     "C12": ("non-interference by whole-program call-graph reachability (CHA) with a positive control",
@@ -132,7 +133,7 @@ CLAIMS = {
             "extraction from the twelve suppression loops",
             "the four change_kind predicates cannot answer true without testing the kind of change; every application "
             "loop passes the kind (also when it travels through a local: reaching-enumerator dataflow) and stores into "
-            "the suppressed set that belong to the container it iterates",
+            "the suppressed set that belong to the container it iterates; R-BINGATE as for C22",
             "name / regex matching of the suppression against the interface is runtime",
             "§3 R-CHGKIND; §4 C23"),
     "C02": ("table extraction from the AST (string literals, switch / if-chain enum tables) and set / inverse-table "
@@ -147,7 +148,8 @@ CLAIMS = {
     "C03": ("typestate dataflow on temp_file (written -> flushed before get_path is handed out) + the C02 vocabulary "
             "tables",
             "the temporary document of abilint --diff / abidw --abidiff is flushed on every path before it is re-read "
-            "by path; no writer-only name exists (it could not survive read+write)",
+            "by path; no writer-only name exists (it could not survive read+write); R-ALIASFIFO: elf_symbol::add_alias "
+            "appends (the reader re-adds aliases in the order the writer lists them)",
             "byte equality of the re-emitted document (ordering, ids) is runtime; iteration order is decided under C14",
             "§3 R-FLUSH, R-VOCAB; §4 C03"),
     "C36": ("AST/CFG rules: return-value provenance of the writer entry points, discarded-result check and "
@@ -216,7 +218,8 @@ CLAIMS = {
     "C09": ("exit-status abstract interpretation with null-edge predicates (tools) + must-pass-through dataflow (reader)",
             "with a failed load (null corpus / group) abidiff and abicompat can only exit with the ERROR bit; "
             "read_corpus_from_elf never pairs a null corpus with STATUS_OK; the ABIXML entry points return non-null "
-            "only after a null-checked full expansion of the root element",
+            "only after a null-checked full expansion of the root element; R-XMLSRC: documents come from libxml2's "
+            "pull reader (or from a push parser that is terminated unconditionally before its result is read)",
             "that libxml2 / elfutils fail on every corruption",
             "§3 R-LOADFAIL, R-EXPAND; §4 C09"),
     "C30": ("exit-status abstract interpretation of abipkgdiff (kill rule, field-wise accumulation, marker predicate) "
@@ -264,7 +267,8 @@ CLAIMS = {
             "out-parameters at each return) + sibling agreement of the three lookups' elf_symbol::create arguments",
             "the section indexes returned with a hash-table kind come, on every path, from a section tested to be of "
             "that kind (independent of section order; the order dependence found was repaired); the SysV, GNU and "
-            "linear lookups build the returned symbol from the same fields",
+            "linear lookups build the returned symbol from the same fields; R-NAMECMP: the shared name test compares "
+            "whole names (no length-bounded comparison without a length test)",
             "the hash walks themselves (hash functions, bloom filter, chains) are algorithmic; their memory safety is C34",
             "§8.6 (added after the design: C37 was first declared not applicable)"),
     "C22": ("who-may-write rule over the whole program + must-pass-through dataflow (evidence of a match) at every "
@@ -272,7 +276,9 @@ CLAIMS = {
             "a diff node enters SUPPRESSED_CATEGORY / PRIVATE_TYPE_CATEGORY only in suppression_categorization_visitor, "
             "and only on the true edge of is_suppressed() or of a flag set from a child that already carries the "
             "category; diff::is_suppressed() answers true only after suppresses_diff() did; the suppressed_* sets are "
-            "filled only under a suppression predicate - so with no matching section no node is ever categorised",
+            "filled only under a suppression predicate - so with no matching section no node is ever categorised; "
+            "R-BINGATE: in every world where a file-name / SONAME property of the section does not match the binaries, "
+            "the five suppression predicates answer false on every path (finite-world interpretation, through helpers)",
             "that a section whose constraints match nothing makes the predicates answer false (matching logic, "
             "runtime); suppressions applied while reading (dropped types)",
             "§8.6 (added after the design: C22 was first declared not applicable)"),
@@ -280,7 +286,8 @@ CLAIMS = {
             "per grammar production, + call-graph search for the inverse of the parser's escape handling",
             "writer and parser of src/abg-ini.cc agree on every structural token of the four productions (section "
             "header, assignment, list, tuple); every such token is a delimiter for the parser; the writer re-escapes the "
-            "characters that terminate a value (recorded finding: it does not escape at all)",
+            "characters that terminate a value (recorded finding: it does not escape at all); R-INIBARE: the assignment "
+            "token is written only under an emptiness test of the value",
             "equality of the parsed values themselves (trimming, one-element lists, empty values) is runtime",
             "§8.6 (added after the design: C39 was first declared not applicable)"),
     "C21": ("AST shape rule over all overriders of diff::has_changes (sibling agreement) + operand-pairing rule over "
